@@ -75,6 +75,9 @@ fn smooth_ok(p: BddPtr, order: &VarOrder, level: usize, n: usize) -> Result<(), 
 fn run_with<'a, T: IteTable<'a, BddPtr<'a>> + Default>(b: &'a RobddBuilder<'a, T>, nv: usize, ops: &[Value], check_shape: bool) -> CaseResult {
     let mut ds: Vec<BddPtr<'a>> = vec![];
     let mut tts: Vec<Vec<bool>> = vec![];
+    // smoothed diagrams are deliberately not reduced: they, and anything built from them, are exempt from the
+    // canonical-form checks
+    let mut canon: Vec<bool> = vec![];
     let nm = 1usize << nv;
     let ix = |v: &Value| v.as_u64().unwrap_or(0) as usize;
     for (k, op) in ops.iter().enumerate() {
@@ -135,6 +138,7 @@ fn run_with<'a, T: IteTable<'a, BddPtr<'a>> + Default>(b: &'a RobddBuilder<'a, T
                 }
                 ds.push(r);
                 tts.push(tx);
+                canon.push(false);
                 continue;
             }
             other => return Err(format!("unknown op {other}")),
@@ -150,18 +154,21 @@ fn run_with<'a, T: IteTable<'a, BddPtr<'a>> + Default>(b: &'a RobddBuilder<'a, T
                 return Err(format!("after op {k}, diagram {i} no longer denotes its function"));
             }
         }
-        if check_shape {
+        let operands_canon = op.as_array().map(|a| a.iter().skip(1).all(|v| match v.as_u64() { Some(i) if name != "var" && name != "cond" && name != "exists" => (i as usize) >= canon.len() || canon[i as usize], _ => true })).unwrap_or(true)
+            && match name { "cond" | "exists" => canon[ix(&op[1])], "compose" => canon[ix(&op[1])] && canon[ix(&op[3])], _ => true };
+        if check_shape && operands_canon {
             if let Err(e) = shape(r, b.order(), None) {
                 return Err(format!("op {k} {op}: {e}"));
             }
             for (i, d) in ds.iter().enumerate() {
-                if (tts[i] == want) != b.eq(*d, r) {
+                if canon[i] && (tts[i] == want) != b.eq(*d, r) {
                     return Err(format!("op {k} {op}: diagrams {i} and {k} denote {} functions but eq() says {}", if tts[i] == want { "equal" } else { "different" }, b.eq(*d, r)));
                 }
             }
         }
         ds.push(r);
         tts.push(want);
+        canon.push(operands_canon);
     }
     Ok(())
 }
